@@ -111,6 +111,11 @@ func c05SetMode(mode string, valid bool, hist string) {
 			mxj.XMLEscapeCharsDecoder(true)
 		}
 	}
+	if hist == "lenient-custom-decoder" {
+		// CustomDecoder configures how documents are READ (its documented use: Strict:false); what the encoders'
+		// validity check accepts as well-formed does not depend on it
+		mxj.CustomDecoder = &xml.Decoder{Strict: false, Entity: xml.HTMLEntity, AutoClose: xml.HTMLAutoClose}
+	}
 	if valid {
 		mxj.XmlCheckIsValid(true)
 	}
@@ -240,7 +245,7 @@ func c05Check(c *Ctx, s, pos, enc, mode string, valid bool, hist string) (nontri
 
 func c05Run(c *Ctx) {
 	mustBeDefault(c)
-	c.S.Rule = "cases = (string, position, encoder, escaping mode, validity check, option history): strings are all words of <= K tokens over {a, 1, space, tab, newline, carriage return, &, <, >, \", ', e-acute, &amp;, &#x41;, ]]>, <![CDATA[, </r>, /, a run of multi-byte characters whose code points end in the byte of an XML special character (U+2026 U+2022 U+0126 U+203C U+203E U+2027 U+4E26), U+FFFD}; for the Map encoders also with the values held as []byte (words of <= 2 tokens); positions element text, attribute value, text beside an attribute, text before a child element, the same three directly in the root element, and a member of a top-level list (default-root wrapping); encoders Map.Xml, Map.XmlIndent, MapSeq.Xml, MapSeq.XmlIndent; modes encoder-side escaping, decoder-side escaping (reached by the five documented call histories of the two switches), escaping off with validity check on/off. Oracle: with escaping the output is well formed and a plain decode gives exactly the values a plain decode of the correctly-escaped source gives; with escaping off and validity on: error or well-formed output; always no panic. non-trivial = the string contains an XML special character."
+	c.S.Rule = "(validity checking with escaping off also with CustomDecoder set to a lenient decoder - Strict:false, HTML entities, auto-close -, which configures reading only) cases = (string, position, encoder, escaping mode, validity check, option history): strings are all words of <= K tokens over {a, 1, space, tab, newline, carriage return, &, <, >, \", ', e-acute, &amp;, &#x41;, ]]>, <![CDATA[, </r>, /, a run of multi-byte characters whose code points end in the byte of an XML special character (U+2026 U+2022 U+0126 U+203C U+203E U+2027 U+4E26), U+FFFD}; for the Map encoders also with the values held as []byte (words of <= 2 tokens); positions element text, attribute value, text beside an attribute, text before a child element, the same three directly in the root element, and a member of a top-level list (default-root wrapping); encoders Map.Xml, Map.XmlIndent, MapSeq.Xml, MapSeq.XmlIndent; modes encoder-side escaping, decoder-side escaping (reached by the five documented call histories of the two switches), escaping off with validity check on/off. Oracle: with escaping the output is well formed and a plain decode gives exactly the values a plain decode of the correctly-escaped source gives; with escaping off and validity on: error or well-formed output; always no panic. non-trivial = the string contains an XML special character."
 	c.S.Assumptions = []string{"the Map/MapSeq under test is obtained by decoding a correctly escaped document that holds the string (decoders validated by C01/C04)"}
 	k := 3
 	if c.Thorough {
@@ -258,11 +263,14 @@ func c05Run(c *Ctx) {
 		hist  string
 	}
 	modes := []mode{{"enc", false, ""}, {"enc", true, ""}, {"dec", false, ""}, {"dec", false, "enc-then-dec"}, {"dec", false, "enc-then-dec-toggle"},
-		{"dec", false, "dec-then-enc"}, {"dec", false, "dec-then-enc-toggle"}, {"dec", true, ""}, {"off", true, ""}, {"off", false, ""}}
+		{"dec", false, "dec-then-enc"}, {"dec", false, "dec-then-enc-toggle"}, {"dec", true, ""}, {"off", true, ""}, {"off", false, ""}, {"off", true, "lenient-custom-decoder"}}
 	for _, pos := range []string{"text", "attr", "text+attr", "text+children", "root-text", "root-attr", "root-text+children", "list-members"} {
 		for _, enc := range []string{"Map.Xml", "Map.XmlIndent", "MapSeq.Xml", "MapSeq.XmlIndent"} {
 			for _, md := range modes {
 				for wi, w := range words {
+					if md.hist == "lenient-custom-decoder" && wi >= len(alpha)*(len(alpha)+1) && !c.Thorough {
+						continue // words of <= 2 tokens in quick
+					}
 					if md.hist != "" && len(w) > 2 && !c.Thorough && wi%4 != 0 {
 						continue // alternative histories: all short strings, a quarter of the longer ones in quick
 					}
